@@ -109,6 +109,12 @@ def run(ctx):
     for wc in rng.sample(range(-128, 128), ctx.n(40, 256)):
         forms = [c for c in render if c[0] == wc]
         obj = Address((wc, bytes.fromhex(forms[0][1])))
+        if rng.random() < 0.6:
+            # the object is obtained by PARSING one of its own text forms (the parser records the form's flags on the object;
+            # they must not leak into later renderings with other flags)
+            src = fresh[rng.choice(forms)]
+            if src.startswith("ok "):
+                obj = Address(bytes.fromhex(src[3:]).decode())
         seq = forms * 2
         rng.shuffle(seq)
         for c in seq:
